@@ -32,7 +32,7 @@ def selftest():
 @st.composite
 def case_strategy(draw):
     c = draw(cases.spacetime_case(
-        kinds=("Wp", "Wp", "Wp", "Wn", "KS", "PP", "F", "FLp", "Wt0"),
+        kinds=("Wp", "Wp", "Wp", "Wn", "KS", "PP", "F", "FLp", "Wt0", "KSin"),
         orders_p=(2, 4, 4, 6), orders_n=(2, 4), np_range=(10, 12)))
     fam = c["spec"]["family"]
     c["form"] = draw(st.sampled_from(["components", "tensors"]))
@@ -46,7 +46,14 @@ def case_strategy(draw):
         c["matter"] = "Tdown4"
         if draw(st.booleans()):
             c["Lambda"] = draw(cases.f(-0.3, 0.3))
-    c["kw"] = dict(clear_cache_every_nbr_calc=10**6)
+    # cache settings never change a value (C01/C03): mostly no clean-up
+    # (fast), sometimes a clean-up every other calculation or a memory limit
+    # below the size of the inputs (memory stage after every calculation)
+    c["kw"] = draw(st.sampled_from(
+        [dict(clear_cache_every_nbr_calc=10**6)] * 4
+        + [dict(clear_cache_every_nbr_calc=2),
+           dict(clear_cache_every_nbr_calc=10**6,
+                memory_threshold_inGB=1e-7)]))
     c["first"] = draw(st.sampled_from(
         [None, "st_covd_udown4", "accelerationdown4", "theta", "sheardown4",
          "omega2", "s_RicciS_u", "dtconserved", "st_Gamma_udd4",
@@ -108,7 +115,12 @@ def test_case(case, note):
     note.nt(fl["dtlapse"] and fl["lapse"] and fl["nshift"] >= 2)
     note.cls(fam, case["boundary"], f"p={p}", f"mask={case.get('mask')}",
              f"nshift={fl['nshift']}", f"vac={case['vacuum']}",
-             "dtlapse" if fl["dtlapse"] else "static-lapse")
+             "dtlapse" if fl["dtlapse"] else "static-lapse",
+             *A.extra_classes(case, ex1))
+    if case.get("kw", {}).get("memory_threshold_inGB"):
+        note.cls("memory-limit-below-inputs")
+    if case.get("kw", {}).get("clear_cache_every_nbr_calc", 10**6) < 100:
+        note.cls("clean-up-every-2")
     h2 = min(fd2.dx, fd2.dy, fd2.dz)
     S1 = float(np.max(np.abs(ex2["dg"]))) + 1e-30
     S2 = A.natural_scale(ex2)
@@ -122,7 +134,7 @@ def test_case(case, note):
         if sel is not None:
             a1, a2, r1, r2 = a1[sel], a2[sel], r1[sel], r2[sel]
         scale = max(scale, 1e-2)
-        floor = 1e-9 * scale * max(1.0, (0.1 / h2) ** nd)
+        floor = 1e-9 * scale * A.cond(ex2) * max(1.0, (0.1 / h2) ** nd)
         e1, e2 = A.err(a1, r1, tr1), A.err(a2, r2, tr2)
         ok, q = A.order_ok(e1, e2, p, floor)
         if np.isfinite(q):
@@ -198,11 +210,13 @@ def generic_cases():
                     matter="none", vacuum=False, kw=KW))
     out.append(dict(cases.generic_Wt0(4), Lambda=0.0, form="components",
                     matter="Tdown4", vacuum=False, kw=KW))
+    out.append(dict(cases.generic_KSin(4), Lambda=0.0, form="components",
+                    matter="none", vacuum=False, kw=KW))
     return out
 
 
 def subchecks(tier):
     q = tier == "quick"
-    return [Sub("eulerian", case_strategy(), test_case, 40 if q else 2500,
+    return [Sub("eulerian", case_strategy(), A.asymptotic(test_case), 40 if q else 2500,
                 generic=generic_cases(), shards=8 if q else 16, max_rounds=2,
                 shrink_quick=False, pregenerate=True)]
